@@ -104,25 +104,27 @@ func TestWorker(t *testing.T) {
 		b, _ := json.Marshal(r)
 		out.Write(append(b, '\n'))
 	}
-	// watchdog outside any bubble: a run that makes no progress for 90 s of
-	// wall-clock time is tool trouble (exit 3), never a violation. (A verdict
-	// "gldap spins without reaching a yield point" was tried here and taken
-	// out again: on a loaded machine a healthy worker can be starved for that
-	// long, and the verdict then was a false alarm. Spinning that does reach
-	// yield points is judged deterministically at the step cap instead.)
+	// watchdog outside any bubble: a run that makes no progress over 45
+	// consecutive two-second polls is tool trouble (exit 3), never a
+	// violation. Polls are counted, not wall-clock differences: a process
+	// that was frozen for a while (a suspended or snapshotted machine) sees
+	// one long poll, not ninety seconds of standstill. (A verdict "gldap
+	// spins without reaching a yield point" was tried here and taken out
+	// again: it was a false alarm on a healthy worker. Spinning that does
+	// reach yield points is judged deterministically at the step cap.)
 	go func() {
-		last, lastT := int64(-1), time.Now()
+		last, stale := int64(-1), 0
 		for {
 			time.Sleep(2 * time.Second)
 			p := progress.Load()
 			if p != last {
-				last, lastT = p, time.Now()
+				last, stale = p, 0
 				continue
 			}
-			if time.Since(lastT) > 90*time.Second {
+			if stale++; stale >= 45 {
 				buf := make([]byte, 4<<20)
 				n := runtime.Stack(buf, true)
-				fmt.Fprintf(os.Stderr, "worker: WATCHDOG no progress for 90s (run %d)\n%s\n", curRun.Load(), buf[:n])
+				fmt.Fprintf(os.Stderr, "worker: WATCHDOG no progress over %d polls (run %d)\n%s\n", stale, curRun.Load(), buf[:n])
 				os.Exit(3)
 			}
 		}
